@@ -1,11 +1,11 @@
 from __future__ import annotations
 
-from typing import TYPE_CHECKING
+from typing import TYPE_CHECKING, Any
 
 import networkx as nx
 
 from pipefunc._pipefunc import PipeFunc
-from pipefunc._utils import at_least_tuple
+from pipefunc._utils import _is_equal, at_least_tuple
 from pipefunc.typing import (
     Array,
     NoAnnotation,
@@ -16,6 +16,15 @@ from pipefunc.typing import (
 
 if TYPE_CHECKING:
     from ._types import OUTPUT_TYPE
+
+
+def same_default(a: Any, b: Any) -> bool:
+    """Whether two default values of a shared argument are the same.
+
+    ``a != b`` is ambiguous for NumPy arrays (and pandas objects) and wrong for NaN;
+    values that cannot be compared are not reported as inconsistent.
+    """
+    return a is b or _is_equal(a, b) is not False
 
 
 def validate_consistent_defaults(
@@ -30,7 +39,7 @@ def validate_consistent_defaults(
                 continue
             if arg not in arg_defaults:
                 arg_defaults[arg] = default_value
-            elif default_value != arg_defaults[arg]:
+            elif not same_default(default_value, arg_defaults[arg]):
                 msg = (
                     f"Inconsistent default values for argument '{arg}' in"
                     " functions. Please make sure the shared input arguments have"
